@@ -91,3 +91,30 @@ void h_drive(void) {
 #ifdef CV_HAS_sp_make
 CV_SG_DEFINE_MAKE(sp_make, ALLOCV, st_ctor(obj))
 #endif
+/* signal<void> (drivers/c15_drive.cpp c15_drive_void): 1..3 coroutine listeners (+1 arriving between the emissions) + 1 connected callback, two
+ * emissions, destruction of every handle.  Oracle = the property statement for a value-less signal: each emission resumes every listener waiting at
+ * that moment exactly once; a listener that only re-awaits misses none; disconnect wakes every still-waiting listener with await_canceled_exception. */
+#ifdef DRIVE_void
+void h_drive(void) {
+  int nlist = DRIVE_NLIST, late = DRIVE_LATE, lim = DRIVE_LIM;
+  *G_CB_LIMIT = lim;
+  unsigned a0 = gh_allocs, f0 = gh_frees;
+  c15_drive_void(nlist, late);
+  __CPROVER_assert(cv_exc_pending == 0, "no exception escapes");
+  for (int i = 0; i < 3; i++) {
+    if (i < nlist) {
+      __CPROVER_assert(LOG(i)->n == 2, "a waiting coroutine listener is resumed exactly once per emission (two emissions: twice)");
+      __CPROVER_assert(LOG(i)->canceled == 1 && LOG(i)->done == 1 && LOG(i)->other_exc == 0, "after the last handle is gone a waiting listener is resumed with await_canceled_exception (exactly once)");
+    } else if (i == 2 && late) {
+      __CPROVER_assert(LOG(i)->n == 1, "a listener arriving between the emissions is resumed by exactly the later one");
+      __CPROVER_assert(LOG(i)->canceled == 1 && LOG(i)->done == 1 && LOG(i)->other_exc == 0, "late listener released on disconnect");
+    } else {
+      __CPROVER_assert(LOG(i)->n == 0 && LOG(i)->done == 0, "unused listener slot untouched");
+    } }
+  int expect = lim < 2 ? lim : 2;
+  __CPROVER_assert(LOG(3)->n == expect, "the connected callback is called once per emission made while it is connected");
+  __CPROVER_assert(gh_allocs - a0 == gh_frees - f0, "everything allocated is released: coroutine frames, the callback awaiter (also on disconnect), the shared state");
+  __CPROVER_assert(gh_sg_made == 1 && gh_sg_disposed == 1 && gh_sg_released == 1, "one shared state, destroyed once, freed once");
+  __CPROVER_assert(0, "SENTINEL reachable");
+}
+#endif
